@@ -158,4 +158,12 @@ Fold(evs, S, st) ==   \* st = [q, healthy, corrupted]
             ELSE [q |-> st.q, corrupted |-> st.corrupted,
                   healthy |-> IF ~st.q /\ w.e = S THEN st.healthy + S ELSE st.healthy])
 FileTotals(S, d) == {Fold(o, S, [q |-> FALSE, healthy |-> 0, corrupted |-> 0]) : o \in EventOrders(S, d)}
+
+\* ---- the scan fraction of a validation WITHOUT a healer (validator.go: bytesDone / container size):
+\* the worker counts every byte it copies from the disk and, when the file has another length than
+\* signed, adds (signed - copied) afterwards - negative for a file that grew; a file that cannot
+\* be opened counts with its signed size at once. So every file ends at its signed size, and a grown
+\* file passes through signed + surplus first.
+ScanFinal(S, d) == S
+ScanExcess(S, d) == IF d.k = "long" THEN d.a ELSE 0
 =============================================================================
